@@ -41,6 +41,7 @@ MirrorImpl(g, complement) ==
 
 Edits(g) ==
   {[op |-> "revcomp"], [op |-> "reverse"]}
+  \cup (IF g.kind \notin {"lin", "qlin"} THEN {[op |-> o, i |-> i] : o \in {"rowrevcomp", "rowreverse"}, i \in 1..Len(g.rows)} ELSE {})
   \cup (IF Len(g.rows) >= 2 /\ g.kind \notin {"lin", "qlin"} THEN {[op |-> "delete", i |-> i] : i \in 1..Len(g.rows)} ELSE {})
   \cup (IF g.kind \notin {"lin", "qlin"}
           THEN {[op |-> "appendcolumns", cols |-> <<c>>] : c \in [1..Len(g.rows) -> CellSet(g.kind)]}
@@ -65,6 +66,17 @@ Next ==
        /\ last' = e
        /\ edits' = Append(edits, e)
   /\ prev' = g /\ n' = n + 1 /\ UNCHANGED g0
+
+\* RevComp / Reverse of one row through the row view: only that row's letters change, twice is the identity
+RowMirrorLaw ==
+  last.op \in {"rowrevcomp", "rowreverse"} =>
+    /\ \A j \in 1..Len(g.rows) : j # last.i => g.rows[j] = prev.rows[j]
+    /\ g.rows[last.i].off = prev.rows[last.i].off
+    /\ Len(g.rows[last.i].cells) = Len(prev.rows[last.i].cells)
+    /\ Apply(g, last).rows[last.i].cells = prev.rows[last.i].cells
+    /\ \A k \in 1..Len(g.rows[last.i].cells) :
+          g.rows[last.i].cells[k][1] = (IF last.op = "rowreverse" THEN prev.rows[last.i].cells[Len(g.rows[last.i].cells) + 1 - k][1]
+                                        ELSE Comp(g.alpha, prev.rows[last.i].cells[Len(g.rows[last.i].cells) + 1 - k][1]))
 
 View == <<g, prev, last, n>>
 
